@@ -67,7 +67,7 @@ func checkC08(c *Ctx) {
 				continue
 			}
 			// base directory: state after block h-1
-			base := filepath.Join(c.Dir(fmt.Sprintf("c08-%d", i)), fmt.Sprintf("base-%d", h-1))
+			base := filepath.Join(c.DirI(i, fmt.Sprintf("c08-%d", i)), fmt.Sprintf("base-%d", h-1))
 			r, _, err := openReplica(c, base, hr.G.G, SpawnOpt{}, true)
 			if err != nil {
 				c.Err(i, "base open", err)
@@ -104,7 +104,7 @@ func checkC08(c *Ctx) {
 				}
 				trials = append(trials, trial{p, nth})
 			}
-			c.Parallel(len(trials), 6, func(ti int) {
+			c.ParallelInner(len(trials), 6, func(ti int) {
 				t := trials[ti]
 				c.crashTrial(i, hr, o, base, h, t.point, t.nth, appHash, !c.Quick() && ti%5 == 0)
 			})
